@@ -26,7 +26,7 @@ impl ProgProperty for C07 {
         }
     }
     fn mix(&self, _tier: Tier) -> Mix {
-        Mix { raw: 20, strukt: 45, div: 30, wide: 0, big: 0, roam: 5, deep: 0, commented: 3 }
+        Mix { raw: 20, strukt: 45, div: 30, wide: 0, big: 0, roam: 5, deep: 0, commented: 3, hibits: 0 }
     }
     fn max_steps(&self) -> u64 {
         600_000
